@@ -188,15 +188,15 @@ Definition step (pts : points) (fam : family) (s : state) (o : op) : state * (na
       let c := if p_load pts then clear_modules pts fam (cch s) else cch s in
       (mkSt (S (pv s)) (dv s) (training s) c, (ST_OK, []))
   | OFantasy =>
-      if training s then (s, (ST_ERR, []))
-      else
-        let present := match f_fant_req fam with
-                       | Some sl => match lookup_slot sl (cch s) with Some _ => true | None => false end
-                       | None => true end in
-        if present && f_fant_ok fam then
-          let '(c2, es) := consult_all pts fam s GNone (cch s) (f_fant_uses fam) in
-          (set_cache s c2, (ST_OK, map obs es))
-        else (s, (ST_ERR, []))
+      (* ExactGP.get_fantasy_model needs an existing prediction strategy (in training mode there
+         is none: every switch to training mode drops it) *)
+      let present := match f_fant_req fam with
+                     | Some sl => match lookup_slot sl (cch s) with Some _ => true | None => false end
+                     | None => true end in
+      if present && f_fant_ok fam then
+        let '(c2, es) := consult_all pts fam s GNone (cch s) (f_fant_uses fam) in
+        (set_cache s c2, (ST_OK, map obs es))
+      else (s, (ST_ERR, []))
   | OPrior =>
       if training s then (s, (ST_OK, []))
       else
